@@ -3,6 +3,7 @@
 mod util;
 mod hcobs_fam;
 mod iovw;
+mod nfs;
 mod readn;
 mod sdq;
 mod seqlock;
@@ -39,6 +40,7 @@ fn main() {
         let obs: util::Obs = match family {
             "win" => win::run(line),
             "iovw" => iovw::run(line),
+            "nfs" => nfs::run(line),
             "chunk" => stream::run_chunk(line),
             "reader" => stream::run_reader(line),
             "hcobs" => hcobs_fam::run(line),
